@@ -1,5 +1,13 @@
 #!/bin/bash
+# builds the framework from files on disk only (offline) and warms the build cache
 set -e
 cd /verif
 . ./env.sh
+mkdir -p bin evidence replays
+(cd instr && go build -o /verif/bin/instr .)
+(cd mc && go vet . && go test -count=1 . >/dev/null)
+# E1 binaries for the current tree (also warms the Go build cache for the instrumented packages)
+scripts/e1bin.sh >/dev/null
+# E2 checks compile
+(cd seq && go build -o /dev/null ./...)
 echo setup ok
